@@ -7,7 +7,7 @@
    arm passes the location it got from `expr()` to the range check or the `Link` record it creates is not
    modelled; it is checked by the planted-fault oracle and the located-expression correspondence of
    lib/c14.py. *)
-From Az65 Require Import Base Token Expr CSpec ExprParse Utf8 Lexer LexerFacts Linker ExprLoc ExprLocFacts LinkLoc LinkLocFacts Trace TraceFacts ExprLocGenFacts.
+From Az65 Require Import Base Token Expr CSpec ExprParse Utf8 Lexer LexerFacts Linker ExprLoc ExprLocFacts LinkLoc LinkLocFacts Trace TraceFacts ExprLocGenFacts OperandLoc OperandLocFacts.
 From Az65.Gen Require Import ExprLocArms.
 
 (* (1) Positions, defined without the state machine: the character that follows a prefix q is on line
@@ -134,6 +134,16 @@ Proof.
 Qed.
 Print Assumptions C14_located_parser_follows_the_table.
 
+(* (14) The operand lists of @db / @dw: the k-th operand is located at the first token of its own text (for
+        `@sizeof LABEL` the label), which comes after everything the k operands before it - strings, expressions of any
+        shape over any number of continued lines, their commas - were made of. *)
+Theorem C14_operand_located_at_its_own_first_token :
+  forall k ts e l ms r, loperand k ts = Some (LOk e l ms r) ->
+    exists before c, ts = before ++ c ++ r /\ lead_loc c = Some l /\ Forall (ment_in c) ms /\
+                     skip_operands k ts = Some (c ++ r).
+Proof. exact operand_located_at_its_own_first_token. Qed.
+Print Assumptions C14_operand_located_at_its_own_first_token.
+
 (* non-vacuity: "nop" / line break / " @db" -- the directive is at 2:2, the first line break at 1:4 *)
 Example C14_example :
   pos_after ([110; 111; 112; 10; 32] ++ [64]) = {| line := 2; col := 2 |} /\
@@ -155,3 +165,11 @@ Example C14_example_chain :
   let b := {| fl_file := [97]%N; fl_loc := {| line := 2; col := 3 |} |} in
   trace (run_sources [Push a; Push b]) = Ok [b; a] /\ trace (run_sources [Push a; Push b; Pop]) = Ok [a].
 Proof. split; vm_compute; reflexivity. Qed.
+
+(* non-vacuity of (14): `"ab", 7 + 1, - foo` : operand 2 is located at the minus sign *)
+Example C14_example_operand :
+  let lc l c := {| line := l; col := c |} in
+  loperand 2 [(TString [97; 98]%N, lc 2 5); (TSym SyComma, lc 2 9); (TNumber 7, lc 2 11); (TSym SyPlus, lc 2 13);
+              (TNumber 1, lc 3 1); (TSym SyComma, lc 3 2); (TSym SyMinus, lc 3 4); (TLabel LkGlobal [102]%N, lc 3 6); (TNewline, lc 3 7)]
+  = Some (LOk (PUn UNeg (PLabel LkGlobal [102]%N)) (lc 3 4) [(LkGlobal, [102]%N, lc 3 6)] [(TNewline, lc 3 7)]).
+Proof. vm_compute. reflexivity. Qed.
